@@ -23,6 +23,7 @@ IsLocal(h) == h \in LocalHosts
 
 (* ---------- credentials presented to this proxy ---------- *)
 CredClasses == {"none", "exact", "wrongPass", "userPrefix", "passSuffix", "passPrefix", "caseVar", "emptyPass",
+                "colonShiftLeft", "colonShiftRight", "colonFirst", "colonLast",   \* same characters, user/password boundary moved
                 "extraColon", "bearer", "digest", "lowerScheme", "notB64", "noColon", "authzOnly",
                 "twoFirstGood", "twoFirstBad", "nominated"}
 \* only Basic credentials equal to the configured pair authenticate
